@@ -146,4 +146,66 @@ Section Model.
     let zen := p2d_zen N (vz w) in
     let azi := p2d_azi N (vy w) (vx w) in
     (p2d_dec N zen, p2d_ra N azi).
+  (* ---------------------------------------------------------------- rotate_signal_events_on_sphere *)
+  (* The three astropy operations are oracles of the model (their contracts are
+     hypotheses of the theorems; the float run uses the transcription below). *)
+  Record sky_oracle : Type := {
+    o_position_angle : T -> T -> T -> T -> T;      (* lon1 lat1 lon2 lat2 *)
+    o_separation : T -> T -> T -> T -> T;          (* lon1 lat1 lon2 lat2 *)
+    o_offset_by : T -> T -> T -> T -> T * T        (* lon lat posang distance -> (lon, lat) *)
+  }.
+
+  (* the statements of the function in order; SkyCoord(...) of radians in the ICRS
+     frame is the identity on (ra, dec) *)
+  Definition rses (O : sky_oracle) (src_ra src_dec true_ra true_dec reco_ra reco_dec : T) : T * T :=
+    let v_source := (rses_v_source N src_ra, rses_v_source N src_dec) in
+    let v_true := (rses_v_evt_true N true_ra, rses_v_evt_true N true_dec) in
+    let v_reco := (rses_v_evt_reco N reco_ra, rses_v_evt_reco N reco_dec) in
+    let pa := rses_pa N (o_position_angle O (fst v_true) (snd v_true) (fst v_reco) (snd v_reco)) in
+    let sp := rses_sep N (o_separation O (fst v_true) (snd v_true) (fst v_reco) (snd v_reco)) in
+    let v_rot := o_offset_by O (fst v_source) (snd v_source) pa sp in
+    let rot_ra := rses_rot_ra N (rses_v_rotated N (fst v_rot)) in
+    let rot_dec := rses_rot_dec N (rses_v_rotated N (snd v_rot)) in
+    (rses_ret_ra N rot_ra, rses_ret_dec N rot_dec).
+
+  (* hand transcription of astropy 8.0.1 coordinates/angles/utils.py
+     (position_angle, angular_separation, offset_by) for the executable run;
+     compared with the real astropy on every run *)
+  Definition two_pi : T := nmul N (ofZ N 2) (npi N).
+  Definition ap_wrap360 (x : T) : T := nfmod N x two_pi.
+  Definition ap_position_angle (lon1 lat1 lon2 lat2 : T) : T :=
+    let deltalon := nsub N lon2 lon1 in
+    let colat := ncos N lat2 in
+    let x := nsub N (nmul N (nsin N lat2) (ncos N lat1))
+                    (nmul N (nmul N colat (nsin N lat1)) (ncos N deltalon)) in
+    let y := nmul N (nsin N deltalon) colat in
+    ap_wrap360 (natan2 N y x).
+  Definition ap_hypot (a b : T) : T := nsqrt N (nadd N (nmul N a a) (nmul N b b)).
+  Definition ap_separation (lon1 lat1 lon2 lat2 : T) : T :=
+    let sdlon := nsin N (nsub N lon2 lon1) in
+    let cdlon := ncos N (nsub N lon2 lon1) in
+    let slat1 := nsin N lat1 in let slat2 := nsin N lat2 in
+    let clat1 := ncos N lat1 in let clat2 := ncos N lat2 in
+    let num1 := nmul N clat2 sdlon in
+    let num2 := nsub N (nmul N clat1 slat2) (nmul N (nmul N slat1 clat2) cdlon) in
+    let den := nadd N (nmul N slat1 slat2) (nmul N (nmul N clat1 clat2) cdlon) in
+    natan2 N (ap_hypot num1 num2) den.
+  Definition ap_small : T := ndiv N (none N) (ofZ N 1000000000000).      (* 1e-12 *)
+  Definition ap_offset_by (lon lat posang distance : T) : T * T :=
+    let cos_a := ncos N distance in let sin_a := nsin N distance in
+    let cos_c := nsin N lat in let sin_c := ncos N lat in
+    let cos_B := ncos N posang in let sin_B := nsin N posang in
+    let cos_b := nadd N (nmul N cos_c cos_a) (nmul N (nmul N sin_c sin_a) cos_B) in
+    let xsin_A := nmul N (nmul N sin_a sin_B) sin_c in
+    let xcos_A := nsub N cos_a (nmul N cos_b cos_c) in
+    let A := if nltb N sin_c ap_small
+             then nadd N (ndiv N (npi N) (ofZ N 2))
+                         (nmul N cos_c (nsub N (ndiv N (npi N) (ofZ N 2)) posang))
+             else natan2 N xsin_A xcos_A in
+    (ap_wrap360 (nadd N lon A), nasin N cos_b).
+  Definition ap_oracle : sky_oracle :=
+    {| o_position_angle := ap_position_angle; o_separation := ap_separation; o_offset_by := ap_offset_by |}.
+  (* SkyCoord normalises the longitude into [0, 2 pi) on construction *)
+  Definition rses_ap (src_ra src_dec true_ra true_dec reco_ra reco_dec : T) : T * T :=
+    rses ap_oracle (ap_wrap360 src_ra) src_dec (ap_wrap360 true_ra) true_dec (ap_wrap360 reco_ra) reco_dec.
 End Model.
